@@ -40,6 +40,35 @@ def _max(repo: Repo) -> int:
     return repo.fold(repo.module_assign(MM, "MAX_USER_DEFINED_CONTROLLERS"))
 
 
+def user_value_type_rule(repo: Repo, rep, P: str, rule: str):
+    """A user-defined controller takes the mapped controller's per-instance value type (`instance_value_type(target module)`),
+    not the class-level `value_type` — the latter is an unresolved DependentRange for unit-dependent controllers and the
+    wrong type for a nested MetaModule's own user controllers.  Shared with C10."""
+    mm = repo.cls("MetaModule", module=MM)
+    rel = mm.file.rel
+    upd = mm.nested["MappingArray"].methods.get("update_user_defined_controllers")
+    con = f"{rel}:MetaModule.MappingArray.update_user_defined_controllers"
+    if upd is None:
+        raise AnchorMissing("MetaModule.MappingArray.update_user_defined_controllers")
+    stores = [n for n in ast.walk(upd) if isinstance(n, ast.Assign) and any(isinstance(t, ast.Attribute) and t.attr == "value_type" for t in n.targets)]
+    if not stores:
+        rep.violation(f"{P}.{rule}", con, norm(upd)[:120], "user-defined controllers no longer receive the mapped controller's value type",
+                      f"{rel}:{upd.lineno}")
+        return
+    for st in stores:
+        v = st.value
+        where = f"{rel}:{st.lineno}"
+        if isinstance(v, ast.Call) and isinstance(v.func, ast.Attribute) and v.func.attr == "instance_value_type" and len(v.args) == 1:
+            rep.ok(f"{P}.{rule}", con, norm(st), "target's per-instance value type")
+        elif isinstance(v, ast.Attribute) and v.attr == "value_type":
+            rep.violation(f"{P}.{rule}", con, norm(st),
+                          "a user-defined controller must take the mapped controller's instance_value_type(mod): with the class-level value_type a "
+                          "unit-dependent range or a nested MetaModule's user controller gets the wrong type and its stored value is mis-decoded",
+                          where)
+        else:
+            rep.inconclusive(f"{P}.{rule}", con, norm(st), "origin of the value type not recognised", where)
+
+
 def user_defined_fresh(repo: Repo, rep, P: str, rule: str):
     """MetaModule.__init__ builds MAX fresh UserDefined objects per instance, before the base constructor runs
     (which seeds values through the class-level proxies).  Shared with C09 and C17."""
@@ -306,17 +335,9 @@ def labels_and_project(repo: Repo, rep, P: str):
             rep.violation(f"{P}.R2", f"{rel}:MetaModule.Mapping", norm(mp.methods["__init__"])[:160] if mp else "missing",
                           "a mapping record is (module, controller)", rel)
     # user-controller value type is the target's per-instance type (unit-dependent ranges, nested user controllers)
+    user_value_type_rule(repo, rep, P, "R2")
     upd = mm.nested["MappingArray"].methods.get("update_user_defined_controllers")
     us = norm(upd) if upd else ""
-    if "user_defined_controller.value_type = controller.instance_value_type(mod)" in us:
-        rep.ok(f"{P}.R2", f"{rel}:MetaModule.MappingArray.update_user_defined_controllers",
-               "user_defined_controller.value_type = controller.instance_value_type(mod)", "target's per-instance value type")
-    else:
-        vt = [norm(n) for n in ast.walk(upd) if isinstance(n, ast.Assign) and any(norm(t).endswith(".value_type") for t in n.targets)] if upd else []
-        rep.violation(f"{P}.R2", f"{rel}:MetaModule.MappingArray.update_user_defined_controllers", "; ".join(vt) or us[:120],
-                      "a user-defined controller must take the mapped controller's instance_value_type(mod): with the class-level value_type a "
-                      "unit-dependent range or a nested MetaModule's user controller gets the wrong type and its stored value is mis-decoded",
-                      rel)
     if "user_defined_controller.default = controller.default" in us and "mod.controller_values[controller.name]" in us:
         rep.ok(f"{P}.R2", f"{rel}:MetaModule.MappingArray.update_user_defined_controllers", "default and current value copied from the target", nontrivial=False)
     # project back-reference
